@@ -215,6 +215,9 @@ def binop(op, a, b, spec=False):
         return map_choice(a, lambda x: binop(op, x, b, spec))
     if isinstance(b, Choice):
         return map_choice(b, lambda x: binop(op, a, x, spec))
+    if op == '+' and (isinstance(a, Opaque) or isinstance(b, Opaque)) and \
+            all(isinstance(x, (Opaque, str, SChar, SSeq)) for x in (a, b)):
+        return Opaque('text')          # concatenation with an unmodelled text (number formatting): some text
     # sequences
     if op == '+' and (is_seq(a) and is_seq(b)):
         return concat(a, b)
@@ -226,6 +229,10 @@ def binop(op, a, b, spec=False):
         return set_diff(a, b)
     if op == '%' and isinstance(a, str):
         return fmt_percent(a, b)
+    if op == '/' and isinstance(a, SSeq) and a.kind == 'list' and a.ek in ('int', 'real') and is_num(b) and kind_of(b) == 'real':
+        a = SSeq(a.arr, a.off, a.n, 'nd', a.ek)        # list / numpy.float64: numpy coerces the list to an array
+    if op in ('+', '-', '*', '/') and (_is_vec(a) or _is_vec(b)) and (is_num(a) or is_num(b) or (_is_vec(a) and _is_vec(b))):
+        return vec_binop(op, a, b)
     if not (is_num(a) and is_num(b)):
         raise Unsupported('binop %s on %r and %r' % (op, type(a).__name__, type(b).__name__))
     conc = not isinstance(a, Sym) and not isinstance(b, Sym)
@@ -262,6 +269,35 @@ def binop(op, a, b, spec=False):
     if op == '**':
         return power(a, b)
     raise Unsupported('binop ' + op)
+
+
+def _is_vec(v):
+    from .interp import RangeVal
+    return (isinstance(v, SSeq) and v.kind == 'nd') or isinstance(v, RangeVal)
+
+
+def vec_binop(op, a, b):
+    """numpy broadcasting of a scalar with a 1-D array (or two arrays of equal length): element-wise, reals"""
+    from .interp import RangeVal
+    from .models import range_to_seq
+
+    def vec(v):
+        if isinstance(v, RangeVal):
+            v = range_to_seq(v)
+        return seq_to_real(v) if v.ek != 'real' else v
+    j = z3.Int('j!v')
+    if _is_vec(a) and _is_vec(b):
+        va, vb = vec(a), vec(b)
+        _raise_if(va.n != vb.n, 'ValueError')
+        x, y, n = z3.Select(va.arr, j + va.off), z3.Select(vb.arr, j + vb.off), va.n
+    elif _is_vec(a):
+        va = vec(a)
+        x, y, n = z3.Select(va.arr, j + va.off), z3real(b), va.n
+    else:
+        vb = vec(b)
+        x, y, n = z3real(a), z3.Select(vb.arr, j + vb.off), vb.n
+    body = {'+': x + y, '-': x - y, '*': x * y, '/': x / y}[op]
+    return SSeq(LAM(j, body), 0, n, 'nd', 'real')
 
 
 def is_num_choice(ch):
